@@ -80,12 +80,23 @@ def main():
         sh("git", "-C", "/repo", "worktree", "remove", "--force", wt)
         shutil.rmtree(wt, ignore_errors=True)
         shutil.rmtree(scr, ignore_errors=True)
+    prev_meta = os.path.join(HERE, "seeded", label, "meta.json")
+    if "--nosuite" in sys.argv and os.path.exists(prev_meta):
+        # keep the result of the suite run of the first evaluation (the patch is the same)
+        old = json.load(open(prev_meta))
+        for k in ("suite_stable_failing", "first_evaluation"):
+            if k in old:
+                meta[k] = old[k]
+        for line in old.get("ran", []):
+            if line.startswith("baseline suite"):
+                meta["ran"].insert(2, line + " [evaluation at %s]" % old.get("repo_head", "?"))
+                break
     valid = meta.get("demo_clean_exit") == 0 and meta.get("demo_patched_exit", 0) != 0 and meta.get("patch_applies") and not meta.get("suite_stable_failing")
     meta["confirmed"] = bool(valid)
     dst = os.path.join(HERE, "seeded", label)
     os.makedirs(dst, exist_ok=True)
     for fn in ("patch.diff", "demo.py", "notes.md"):
-        if os.path.exists(os.path.join(src, fn)):
+        if os.path.exists(os.path.join(src, fn)) and os.path.abspath(src) != os.path.abspath(dst):
             shutil.copy(os.path.join(src, fn), os.path.join(dst, fn))
     if os.path.exists(os.path.join(src, "notes.md")):
         meta["needs_to_manifest"] = "see notes.md"
